@@ -800,7 +800,7 @@ def _strategy(tier, ki):
         e = ENTRIES[keys[ki]]
         d = e["dim"]
         lo = e["min_n"]
-        shape = draw(st.one_of(st.just([lo] * d), gen.grid_shape(d, lo, max(hi[d], lo + 2))))
+        shape = draw(st.one_of(st.just([lo] * d), gen.grid_shape(d, lo, max(hi[d], lo + 2), long_axis=70 if d == 2 else 40)))
         threads = draw(st.sampled_from([False, 1, 2, 3]))
         dx = draw(st.sampled_from([0.0625, 0.1, 0.037]))
         if ("laplacian_filter" in e["gen"] or "ssprk3" in e["gen"]) and draw(st.integers(0, 3)) > 0:
